@@ -100,6 +100,10 @@ type DataPlan struct {
 	V          Verdict
 	Statuses   []StatusCall
 	PanicWhen  int // for V.Kind==vPanic: 0 on entry, 1 after reading
+	// IgnoreReadErr: accept the message even though the reader failed. By
+	// default the backend behaves like io.ReadAll-based backends do and
+	// returns the reader's (non-EOF) error.
+	IgnoreReadErr bool
 }
 
 const (
@@ -165,6 +169,7 @@ type BEvent struct {
 	SawEOF    bool
 	Contract  string // io.Reader contract breach, if any
 	StatusSet []string
+	termErr   error
 }
 
 // SimBackend is the plan-driven, recording backend.
@@ -416,6 +421,8 @@ func (ev *BEvent) consume(r io.Reader, p *DataPlan) {
 			ev.Terminal = err.Error()
 			if err == io.EOF {
 				ev.SawEOF = true
+			} else {
+				ev.termErr = err
 			}
 			return
 		}
@@ -471,6 +478,9 @@ func (s *simSession) runData(ev *BEvent, r io.Reader, p *DataPlan, sc smtp.Statu
 		p.V.err()
 	}
 	err = p.V.err()
+	if err == nil && ev.termErr != nil && !p.IgnoreReadErr {
+		err = ev.termErr
+	}
 	ev.finish(err)
 	return err
 }
